@@ -938,7 +938,7 @@ func run(c *core.Ctx) error {
 			// a sample at the dictionary boundary scale
 			every := 9
 			if !c.Quick() {
-				every = 4
+				every = 16
 			}
 			if (j+int(c.Seed))%every == 0 && len(cs.Seq) > 0 {
 				jobs = append(jobs, func() error {
